@@ -582,7 +582,7 @@ def gen_model(rng, cfg=None, feats=None):
     return desc, realised
 
 
-def gen_initial_states(rng, ref, N, *, off_grid=0.5, out_of_range=0.1):
+def gen_initial_states(rng, ref, N, *, off_grid=0.5, out_of_range=0.1, int_cont=0.0):
     """Initial states for N agents: on-grid, interior off-grid, slightly out of range
     (linear grids only); restricted-state combinations from the feasible set of period 0.
     """
@@ -601,6 +601,9 @@ def gen_initial_states(rng, ref, N, *, off_grid=0.5, out_of_range=0.1):
                 w = g[-1] - g[0]
                 oor = np.where(rng.random(N) < 0.5, g[0] - 0.1 * w * rng.random(N), g[-1] + 0.1 * w * rng.random(N))
                 v = np.where(rng.random(N) < out_of_range, oor, v)
+            if int_cont > 0 and rng.random() < int_cont and np.floor(g[-1]) - np.ceil(g[0]) >= 1:
+                # an unusual but legitimate input: integer-typed initial values of a continuous state
+                v = rng.integers(int(np.ceil(g[0])), int(np.floor(g[-1])) + 1, N).astype(np.int64)
             init[s] = v
     fs = ref.feas_state(0)
     if fs is not None and fs.any():
